@@ -129,10 +129,30 @@ func sameZone(a, b any) bool {
 	return ao == bo
 }
 
+// renameType gives the type drawn by filterType (always "t") another name:
+// type names are free text, also when they begin like a keyword of the tag
+// language ("rel", "attr").
+func renameType(t *rapid.T, ts *gen.TypeSpec) {
+	name := rapid.SampledFrom([]string{"t", "t", "relatives", "rel-x", "attrs", "relx", "ids"}).Draw(t, "typename")
+
+	for i := range ts.Rels {
+		if ts.Rels[i].FromType == ts.Name {
+			ts.Rels[i].FromType = name
+		}
+
+		if ts.Rels[i].ToType == ts.Name {
+			ts.Rels[i].ToType = name
+		}
+	}
+
+	ts.Name = name
+}
+
 // readBackType draws a type whose relationships carry no FromOne (a struct tag
 // cannot express it, so both implementations can agree on the definition).
 func readBackType(t *rapid.T) gen.TypeSpec {
 	ts := filterTypeWide(t, 6, true, 300)
+	renameType(t, &ts)
 	if rapid.IntRange(0, 5).Draw(t, "allkinds") == 0 {
 		ts.Attrs = gen.AllKindAttrs()
 	}
@@ -156,8 +176,15 @@ func readBackType(t *rapid.T) gen.TypeSpec {
 
 	// Names are case-sensitive: an attribute whose name only differs from
 	// another one's by letter case is a field of its own (of any kind).
+	have := map[string]bool{}
+	for _, a := range ts.Attrs {
+		have[a.Name] = true
+	}
+
 	for _, a := range append([]jsonapi.Attr{}, ts.Attrs...) {
-		if up := strings.ToUpper(a.Name); up != a.Name && rapid.IntRange(0, 3).Draw(t, "casevariant") == 0 {
+		if up := strings.ToUpper(a.Name); up != a.Name && !have[up] && rapid.IntRange(0, 3).Draw(t, "casevariant") == 0 {
+			have[up] = true
+
 			ts.Attrs = append(ts.Attrs, jsonapi.Attr{Name: up, Type: rapid.SampledFrom(gen.Kinds).Draw(t, "casevariant-kind"), Nullable: rapid.Bool().Draw(t, "casevariant-nullable")})
 		}
 	}
@@ -373,6 +400,7 @@ func TestC17Equality(t *testing.T) {
 
 	rapid.Check(t, prop(r, func(t *rapid.T) {
 		ts := filterType(t, 4, true)
+		renameType(t, &ts)
 		vals := gen.FillResource(t, gen.NewResource(&ts), &ts, "v")
 
 		build := func(spec gen.TypeSpec, vals map[string]any, wrapped bool) jsonapi.Resource {
@@ -400,7 +428,7 @@ func TestC17Equality(t *testing.T) {
 
 		aspects := []string{"none", "type-name", "attr-name", "value", "id", "extra-attr", "extra-rel", "attr-kind"}
 		if len(ts.Rels) > 0 {
-			aspects = append(aspects, "rel-name", "rel-value")
+			aspects = append(aspects, "rel-name", "rel-value", "rel-inverse")
 		}
 
 		aspect := rapid.SampledFrom(aspects).Draw(t, "aspect")
@@ -453,6 +481,19 @@ func TestC17Equality(t *testing.T) {
 			ts.Attrs[i].Type, ts.Attrs[i].Nullable = pair.k1, false
 			ts2.Attrs[i].Type, ts2.Attrs[i].Nullable = pair.k2, false
 			vals[ts.Attrs[i].Name], vals2[ts.Attrs[i].Name] = pair.v1, pair.v2
+			a = build(ts, vals, aWrapped)
+		case "rel-inverse":
+			// a has one end of a two-way relationship of the type with
+			// itself, b the other end (same cardinality, same value): two
+			// different field names.
+			i := rapid.IntRange(0, len(ts2.Rels)-1).Draw(t, "i")
+			ts.Rels = append([]jsonapi.Rel{}, ts.Rels...)
+			old := ts.Rels[i].FromName
+			ts.Rels[i].ToType, ts.Rels[i].ToName, ts.Rels[i].FromOne = ts.Name, "zzinv", ts.Rels[i].ToOne
+			ts2.Rels[i] = ts.Rels[i]
+			ts2.Rels[i].FromName, ts2.Rels[i].ToName = "zzinv", old
+			vals2["zzinv"] = vals2[old]
+			delete(vals2, old)
 			a = build(ts, vals, aWrapped)
 		case "rel-name":
 			i := rapid.IntRange(0, len(ts2.Rels)-1).Draw(t, "i")
